@@ -34,9 +34,24 @@ def sp_state(I):
     return st
 
 
+def at_handler_parses(model):
+    """does the real handleAtCommand (or anything it reaches) use the handlers' own parser?  The stream processor reads the
+    parsed line again after that call, which is only right while the answer is no."""
+    from .entries import new_handlers_state
+    I0 = make_interp(model, unroll=1)
+    st, H, S = new_handlers_state(I0)
+    res = I0.run_method(st, 'GcodeHandlers', 'handleAtCommand', H, [Opaque('comm'), SStr('ATCMD', nonempty=True), SStr('PARAMS')])
+    for (s, v) in res:
+        for e in s.trace:
+            if e[0] in ('parse', 'buildCommand') and str(e[1]) == 'H.gcodeParser':
+                return True
+    return False
+
+
 def install_handler_summaries(I):
     """handleGcode / handleAtCommand replaced by their result shapes (decided by C09.R1 / C14); both keep the
     essential side effect for this property: the handlers re-parse the command with their (shared) parser"""
+    at_parses = at_handler_parses(I.m)
     def handleGcode(I, st, recv, args, kw, frame, node):
         cmd, gcode = args[0], args[1]
         sub = args[2] if len(args) > 2 else kw.get('subcode', NONE)
@@ -65,6 +80,11 @@ def install_handler_summaries(I):
     def handleAtCommand(I, st, recv, args, kw, frame, node):
         comm = args[0]
         st.ev('handle-at', args[1], args[2], comm)
+        if at_parses:
+            parser = st.heap.get((recv.oid, 'gcodeParser'))
+            if isinstance(parser, Obj):
+                for (s3, _r) in I.summaries[('GcodeParser', 'parse')](I, st, parser, [args[2]], {}, frame, node):
+                    st = s3
         out = []
         cases = [('unhandled', 0), ('handled', 0), ('handled', 1), ('handled', 2)]
         for i, (h, n) in enumerate(cases):
